@@ -34,7 +34,7 @@ def isn(v):
 def live(o):
     import pandas as pd
     if o['k'] == 'scalar':
-        return o['v']
+        return NAN if o['v'] is None else o['v']
     idx = pd.DatetimeIndex([T0 + datetime.timedelta(days=i) for i in o['ts']])
     f = lambda v: NAN if v is None else float(v)
     if o['k'] == 'series':
@@ -47,7 +47,7 @@ def m_of(o):
     """model operand: ('scalar', v) | ('series', {t: v}) | ('frame', {col: {t: v}}, single?)"""
     f = lambda v: NAN if v is None else float(v)
     if o['k'] == 'scalar':
-        return ('scalar', o['v'])
+        return ('scalar', NAN if o['v'] is None else o['v'])
     if o['k'] == 'series':
         return ('series', dict(zip(o['ts'], map(f, o['v']))), list(o['ts']))
     return ('frame', {n: dict(zip(o['ts'], map(f, c))) for n, c in zip(o['names'], o['cols'])}, list(o['ts']), list(o['names']))
@@ -84,6 +84,9 @@ def fop(op, x, y):
     raise HarnessError(op)
 
 
+_FILL = [None]
+
+
 def m_binary(op, a, b, join, columns):
     """returns ('scalar', v) | ('series', {t:v}, index) | ('frame', {col:{t:v}}, index, cols)"""
     pand = [x for x in (a, b) if x[0] != 'scalar']
@@ -107,7 +110,8 @@ def m_binary(op, a, b, join, columns):
         if x[0] == 'scalar':
             return x[1]
         if x[0] == 'series':
-            return x[1].get(t, NAN)
+            v_ = x[1].get(t, NAN)
+            return 0.0 if (_FILL[0] == 0 and isn(v_)) else v_      # a numeric fill method: what the operand lacks at a joint timestamp is that constant
         if len(x[3]) == 1:
             return x[1][x[3][0]].get(t, NAN)
         if col in x[1]:
@@ -183,15 +187,19 @@ def snap_ops(objs):
     return [(list(o.index), o.values.tolist()) if isinstance(o, (pd.Series, pd.DataFrame)) else o for o in objs]
 
 
-def run_case(case, ctx):
+def run_case(case, ctx, objs=None):
     import pandas as pd
     import pyg_base as pb
     ops = case['operands']
-    objs = [live(o) for o in ops]
+    objs = [live(o) for o in ops] if objs is None else objs
     ms = [m_of(o) for o in ops]
     before = snap_ops(objs)
     join, columns, op = case['join'], case['columns'], case['op']
     kw = dict(join=join, columns=columns)
+    _FILL[0] = None
+    if case.get('method') == 0:
+        kw['method'] = 0
+        _FILL[0] = 0
     FN = {'add': pb.add_, 'sub': pb.sub_, 'mul': pb.mul_, 'div': pb.div_, 'pow': pb.pow_, 'min': pb.min_, 'max': pb.max_}
     from pyg_base import _pandas as P
     FN.update({'gt': P.gt_, 'ge': P.ge_, 'lt': P.lt_, 'le': P.le_, 'df_sum': P.df_sum, 'df_mean': P.df_mean, 'df_count': P.df_count})
@@ -235,6 +243,19 @@ def run_case(case, ctx):
             ctx.ev('aggregates_skip_nan'); ctx.fail('aggregates_skip_nan', '%s raised %s' % (op, core.exc_str(got)))
         else:
             compare(ctx, got, exp, '%s(%r, join=%s, columns=%s)' % (op, ops, join, columns), mon='aggregates_skip_nan')
+        if case.get('phase2') is not None and st == 'ok':
+            # the same operand objects again after the index of one of them was moved in place (same length): nothing remembered may be reused
+            j = case['phase2'] % len(objs)
+            if isinstance(objs[j], (pd.Series, pd.DataFrame)) and len(objs[j]):
+                objs[j].index = objs[j].index + pd.Timedelta(days=3)
+                ops2 = [dict(o) for o in ops]
+                ops2[j] = dict(ops[j], ts=[t + 3 for t in ops[j]['ts']])
+                case2 = dict(case, operands=ops2)
+                case2.pop('phase2')
+                run_case(case2, ctx, objs=objs)
+                objs[j].index = objs[j].index - pd.Timedelta(days=3)
+                ctx.cls('aggregate_repeated_after_index_moved_in_place')
+                return
     else:
         two = len(objs) == 2 or op in ('pow', 'gt', 'ge', 'lt', 'le')
         if two:
@@ -383,13 +404,17 @@ def gen_case(rng):
                 o['cols'] = (o['cols'] + o['cols'])[:k]
         if kind == 'series' and rng.random() < 0.3:
             operands.insert(rng.randrange(1, len(operands) + 1), {'k': 'scalar', 'v': rng.choice([2, 2.5, 0, -1])})
-        return {'op': op, 'operands': operands, 'join': rng.choice(['oj', 'oj', 'ij']), 'columns': rng.choice(['oj', 'oj', 'ij']), 'as_list': rng.random() < 0.6 or any(o['k'] == 'scalar' for o in operands)}
+        case = {'op': op, 'operands': operands, 'join': rng.choice(['oj', 'oj', 'ij']), 'columns': rng.choice(['oj', 'oj', 'ij']), 'as_list': rng.random() < 0.6 or any(o['k'] == 'scalar' for o in operands)}
+        if rng.random() < 0.3:
+            case['phase2'] = rng.randrange(len(operands))
+        return case
     n = 2 if op in ('pow', 'gt', 'ge', 'lt', 'le') or rng.random() < 0.7 else rng.randint(3, 4)
     kinds = [rng.choice(['series', 'series', 'frame1', 'frameN', 'frameN', 'scalar']) for _ in range(n)]
     if all(k == 'scalar' for k in kinds):
         kinds[0] = 'series'
     if op in ('min', 'max'):
-        kinds = [k if k != 'scalar' else 'series' for k in kinds]
+        if all(k == 'scalar' for k in kinds[1:]) and kinds[0] == 'scalar':
+            kinds[0] = 'series'
         seen1 = False
         for i_, k_ in enumerate(kinds):     # two one-column frames with different names are aligned by label by numpy/pandas (outside the statement): keep at most one
             if k_ == 'frame1':
@@ -405,6 +430,10 @@ def gen_case(rng):
         same_cols = False
         columns = 'oj' if rng.random() < 0.8 else columns
     operands = [gen_operand(rng, k, names_pool) for k in kinds]
+    if op in ('min', 'max'):
+        for o in operands:
+            if o['k'] == 'scalar' and rng.random() < 0.3:
+                o['v'] = None          # a NaN scalar (e.g. what a division by zero returned): the pointwise min/max with NaN is NaN
     if op == 'pow':
         for o in operands:
             if o['k'] == 'series':
@@ -413,7 +442,10 @@ def gen_case(rng):
                 o['cols'] = [[v if v is None else abs(v) for v in c] for c in o['cols']]
             else:
                 o['v'] = abs(o['v'])
-    return {'op': op, 'operands': operands, 'join': join, 'columns': columns, 'as_list': rng.random() < 0.6}
+    case = {'op': op, 'operands': operands, 'join': join, 'columns': columns, 'as_list': rng.random() < 0.6}
+    if op in ('add', 'sub', 'mul', 'div') and len(operands) == 2 and all(o['k'] in ('series', 'scalar') for o in operands) and rng.random() < 0.4:
+        case['method'] = 0          # the numeric fill method (4th parameter): holes of an operand at joint timestamps count as 0
+    return case
 
 
 def plan(tier, seed, n):
